@@ -328,6 +328,17 @@ def compare_docs(exp, real):
                 # belong to the status (OpenAPI cannot attach them to one media type): every header declared by some
                 # content of that status must be there (contents of one status that disagree on a header's schema are skipped)
                 er = {(k, md): s for k, md, s, h in eo["responses"] if md is not None}
+                # two declared contents that fall into the same slot of the document once the default media type is filled in
+                # (`<media="application/json", A> :: B`): one of them has to give way and the statement does not say which -
+                # the slot must exist, its schema is not compared
+                seen_slot, ambiguous = {}, set()
+                for k, md, s_, h in eo["responses"]:
+                    if md is None:
+                        continue
+                    js = json.dumps(s_, sort_keys=True)
+                    if (k, md) in seen_slot and seen_slot[(k, md)] != js:
+                        ambiguous.add((k, md))
+                    seen_slot[(k, md)] = js
                 rr = {(k, md): s for k, md, s, h in ro["responses"] if md is not None}
                 rstat = {k for k, md, s, h in ro["responses"]}
                 for k, md, s, h in eo["responses"]:
@@ -336,7 +347,7 @@ def compare_docs(exp, real):
                 for key in er:
                     if key not in rr:
                         out.append(("response-missing", "%s %s: response %s (media %s) is declared but not in the document" % (m, pat, key[0], key[1])))
-                    elif json.dumps(er[key], sort_keys=True) != json.dumps(rr[key], sort_keys=True):
+                    elif key not in ambiguous and json.dumps(er[key], sort_keys=True) != json.dumps(rr[key], sort_keys=True):
                         out.append((differ("response-schema-differs", er[key], rr[key]), "%s %s %s: expected %s, document %s" % (m, pat, key, json.dumps(er[key])[:300], json.dumps(rr[key])[:300])))
                 for key in rr:
                     if key not in er:
